@@ -29,5 +29,28 @@ CLAIMS.update({
             'note': 'The event source (parser) is abstracted by a ghost event sequence assumed to be grammatical; registered constructors are assumed to follow the constructor protocol; two-phase (yield) constructors and the C composer are not under contract here.',
             'technique': _T, 'design_ref': 'DESIGN.md 5/C13'},
 })
+CLAIMS.update({
+    'C09': {'text': 'Reader.forward/peek/prefix/get_mark are proved against a ghost input text: after forward() index/line/column equal spec functions that COUNT line breaks (BOM-insensitive column), marks lie inside the input; every parser state function is proved, for every next-token class, every well-typed continuation stack and an arbitrary scanner-shaped token sequence, to return an event with 0 <= start <= end <= N whose start lies between the first token looked at and the next unconsumed token (marks never move backwards), with safe stack pops and true asserts at STREAM-END.',
+            'note': 'The scanner (token grammar, token marks, values between marks) is not under contract: tokens are an assumed well-formed ghost sequence. The event-grammar simulation (events form a word of the grammar) is covered only through the stack typing, not as a separate proof. parse_node is discharged in the thorough tier only.',
+            'technique': _T, 'design_ref': 'DESIGN.md 5/C09'},
+    'C03': {'text': 'Parser and composer functions are proved to raise only ParserError / ComposerError (or what the layer below raises) for arbitrary token / event sequences: no IndexError, KeyError, AttributeError, TypeError, UnboundLocalError or AssertionError is reachable; the reader primitives are index-safe for every buffer state.',
+            'note': 'The scanner functions are NOT under contract, so "scanning raises only ScannerError and terminates" is not claimed; LibYAML half outside. Termination: only Reader.forward has a variant.',
+            'technique': _T, 'design_ref': 'DESIGN.md 5/C03'},
+    'C12': {'text': 'Emitter document boundary functions (expect_document_start/end, write_indent/indicator/line_break, write_plain open_ended flag, tag prefixes rebuilt per document) and the parser document loop (parse_document_start/end, process_directives, implicit documents) are under discharged contracts.',
+            'note': 'The text-level argument (no content line starts with --- or ...) lives in the scalar writers/scanners, which are not under contract.',
+            'technique': _T, 'design_ref': 'DESIGN.md 5/C12'},
+    'C05': {'text': 'Emitter tag/anchor processing is proved: prepared tag/anchor are consumed on every path (nothing leaks into the next node), a scalar tag is elided only when the event marks it implicit for the style actually used, the style choice respects the scalar analysis; stream start/end states accept exactly their event and reject everything else with EmitterError.',
+            'note': 'The emit->parse text inverse is not claimed; prepare_* / analyze_scalar are used through assumed shape contracts; only part of the expect_* state machine is under contract.',
+            'technique': _T, 'design_ref': 'DESIGN.md 5/C05'},
+    'C02': {'text': 'The block-scalar header (indentation indicator exactly when the text starts with a space or break; strip/clip/keep by the trailing breaks), the scalar style choice and the tag elision rule are proved for all texts and flag combinations.',
+            'note': 'Only these per-call pieces of the round trip are under contract; the end-to-end inverse (writers vs scanners) is not claimed.',
+            'technique': _T, 'design_ref': 'DESIGN.md 5/C02'},
+    'C07': {'text': 'Reader.peek/prefix/forward/get_mark are proved against contracts that mention only the ghost text and position (never buffer, pointer or chunk sizes); determine_encoding is proved to choose the encoding as a function of the delivered bytes alone for every chunking; check_printable reports the absolute offset and is proved against the YAML printable set written from the specification; update_raw performs exactly one bounded read.',
+            'note': 'Reader.update (decode loop) is used through an assumed abstract contract; the C input handler is outside.',
+            'technique': _T, 'design_ref': 'DESIGN.md 5/C07'},
+    'C08': {'text': 'All eight implicit-resolver patterns are translated from their real source and decided as regular-language obligations: complete first-character index, language equality with the YAML 1.1 languages (deviations explicit), pairwise disjointness, dump-side inclusion for int/float/bool/null/date/datetime; counterexamples are strings replayed on the real resolver.',
+            'note': 'Converter values (int/float/timestamp arithmetic) are not under contract yet.',
+            'technique': 'contract-based deductive verification: regular-language obligations generated from the real patterns (re._parser) and decided by z3; plus pyvc contracts on choose_scalar_style/process_tag', 'design_ref': 'DESIGN.md 5/C08'},
+})
 for _p in CLAIMS:
     NOT_APPLICABLE.pop(_p, None)
